@@ -65,22 +65,23 @@ def _body(fn: ast.AST) -> list[ast.stmt]:
     return b
 
 
-def _inline_adjacent_temps(block: list[ast.stmt], params: set[str]) -> None:
+def _inline_adjacent_temps(block: list[ast.stmt], params: set[str], whole: list[ast.stmt] | None = None) -> None:
     """`t = e` immediately followed by the only statement that reads `t` (once), where nothing but the operations
     enclosing that read is evaluated before it: the read is replaced by `e` (a helper written with an explaining
     temporary is the same expression helper)."""
+    whole = block if whole is None else whole
     for st in block:
         for fld in ('body', 'orelse', 'finalbody'):
             sub = getattr(st, fld, None)
             if isinstance(sub, list) and sub and isinstance(sub[0], ast.stmt):
-                _inline_adjacent_temps(sub, params)
+                _inline_adjacent_temps(sub, params, whole)
     k = 0
     while k + 1 < len(block):
         a, b = block[k], block[k + 1]
         if isinstance(a, ast.Assign) and len(a.targets) == 1 and isinstance(a.targets[0], ast.Name) and a.targets[0].id not in params \
                 and isinstance(b, (ast.Return, ast.Assign, ast.Expr, ast.AugAssign)):
             t = a.targets[0].id
-            everywhere = sum(1 for s_ in block for n in ast.walk(s_) if isinstance(n, ast.Name) and n.id == t)
+            everywhere = sum(1 for s_ in whole for n in ast.walk(s_) if isinstance(n, ast.Name) and n.id == t)
             reads = [n for n in ast.walk(b) if isinstance(n, ast.Name) and n.id == t and isinstance(n.ctx, ast.Load)]
             if everywhere == 2 and len(reads) == 1 and not any(isinstance(n, (ast.Lambda, ast.ListComp, ast.SetComp, ast.DictComp, ast.GeneratorExp)) and any(x is reads[0] for x in ast.walk(n)) for n in ast.walk(b)):
                 # calls in b that are not ancestors of the read would be evaluated in a different order
@@ -167,6 +168,125 @@ def _as_expr(body: list[ast.stmt]) -> ast.expr | None:
             return None
         return ast.copy_location(ast.IfExp(test=st.test, body=a, orelse=b), st)
     return None
+
+
+def _first_evaluated_call(st: ast.stmt, name: str) -> tuple[ast.AST, str, int | None, ast.Call] | None:
+    """The call `name()` when it is the first non-trivial thing statement `st` evaluates (only plain names and
+    constants are read before it): (parent, field, index, call)."""
+    if not isinstance(st, (ast.Assign, ast.AugAssign, ast.AnnAssign, ast.Expr, ast.Return)) or getattr(st, 'value', None) is None:
+        return None
+    if isinstance(st, ast.Assign) and not all(isinstance(t, ast.Name) for t in st.targets):
+        return None
+    if isinstance(st, (ast.AugAssign, ast.AnnAssign)) and not isinstance(st.target, ast.Name):
+        return None
+    par: ast.AST = st
+    fld, idx, cur = 'value', None, st.value
+    while True:
+        if isinstance(cur, ast.Call):
+            if isinstance(cur.func, ast.Name) and cur.func.id == name and not cur.args and not cur.keywords:
+                return par, fld, idx, cur
+            if isinstance(cur.func, ast.Name) and cur.args and not isinstance(cur.args[0], ast.Starred):
+                par, fld, idx, cur = cur, 'args', 0, cur.args[0]
+            elif isinstance(cur.func, ast.Attribute):
+                par, fld, idx, cur = cur.func, 'value', None, cur.func.value
+            else:
+                return None
+        elif isinstance(cur, ast.Subscript):
+            if isinstance(cur.value, (ast.Name, ast.Constant)):
+                par, fld, idx, cur = cur, 'slice', None, cur.slice
+            else:
+                par, fld, idx, cur = cur, 'value', None, cur.value
+        elif isinstance(cur, ast.Attribute):
+            par, fld, idx, cur = cur, 'value', None, cur.value
+        elif isinstance(cur, (ast.BinOp, ast.Compare)):
+            par, fld, idx, cur = cur, 'left', None, cur.left
+        else:
+            return None
+
+
+def _expand_closures(fn: ast.AST) -> bool:
+    """Parameterless nested helpers of a new function (`def inner(): <straight-line statements>; return e`, only ever
+    called) are spliced at their call sites: a closure reads the enclosing scope at call time, which is what the
+    spliced statements do."""
+    done = False
+    counter = 0
+    for st in list(fn.body):  # type: ignore[attr-defined]
+        if not isinstance(st, ast.FunctionDef) or st.decorator_list:
+            continue
+        a = st.args
+        if a.args or a.posonlyargs or a.kwonlyargs or a.vararg or a.kwarg:
+            continue
+        body = list(st.body)
+        if body and isinstance(body[0], ast.Expr) and isinstance(body[0].value, ast.Constant):
+            body = body[1:]
+        if not body or not isinstance(body[-1], ast.Return) or body[-1].value is None:
+            continue
+        if any(not isinstance(x, (ast.Assign, ast.AugAssign, ast.AnnAssign, ast.Expr)) for x in body[:-1]):
+            continue
+        if any(isinstance(n, (ast.Nonlocal, ast.Global, ast.Yield, ast.YieldFrom, ast.Await, ast.Return, ast.FunctionDef, ast.Lambda)) for x in body[:-1] for n in ast.walk(x)):
+            continue
+        uses = [n for n in ast.walk(fn) if isinstance(n, ast.Name) and n.id == st.name]
+        if not uses:
+            continue
+        inner_locals = {n.id for x in body for n in ast.walk(x) if isinstance(n, ast.Name) and isinstance(n.ctx, ast.Store)}
+        outer_names = {n.id for x in fn.body if x is not st for n in ast.walk(x) if isinstance(n, ast.Name)}  # type: ignore[attr-defined]
+        sites = []
+        ok = True
+        for _owner, blk in _stmt_blocks(fn, st):
+            for k, s_ in enumerate(blk):
+                n_here = sum(1 for n in ast.walk(s_) if isinstance(n, ast.Name) and n.id == st.name) if not isinstance(s_, (ast.If, ast.For, ast.While, ast.With, ast.Try)) else \
+                    sum(1 for n in ast.walk(getattr(s_, 'test', None) or getattr(s_, 'iter', None) or ast.Pass()) if isinstance(n, ast.Name) and n.id == st.name)
+                if not n_here:
+                    continue
+                hit = _first_evaluated_call(s_, st.name) if n_here == 1 else None
+                if hit is None:
+                    ok = False
+                else:
+                    sites.append((blk, s_, hit))
+        if not ok or len(sites) != len(uses):
+            continue
+        for blk, s_, (par, fld, idx, call) in sites:
+            counter += 1
+            ren = {nm: f'{nm}__{st.name.lstrip("_")}{counter}' for nm in inner_locals if nm in outer_names}
+
+            class _Rn(ast.NodeTransformer):
+                def visit_Name(self, n: ast.Name) -> ast.AST:  # noqa: N802
+                    if n.id in ren:
+                        return ast.copy_location(ast.Name(id=ren[n.id], ctx=n.ctx), n)
+                    return n
+            pre = [_Rn().visit(copy.deepcopy(x)) for x in body[:-1]]
+            val = _Rn().visit(copy.deepcopy(body[-1].value))
+            for x in pre + [val]:
+                for n in ast.walk(x):
+                    if hasattr(n, 'lineno'):
+                        n.lineno = s_.lineno
+                        n.end_lineno = getattr(s_, 'end_lineno', s_.lineno)
+            if idx is None:
+                setattr(par, fld, val)
+            else:
+                getattr(par, fld)[idx] = val
+            k = next(i for i, x in enumerate(blk) if x is s_)
+            blk[k:k] = pre
+        fn.body.remove(st)  # type: ignore[attr-defined]
+        ast.fix_missing_locations(fn)
+        done = True
+    return done
+
+
+def _stmt_blocks(fn: ast.AST, skip: ast.AST):  # noqa: ANN201
+    """(owner, statement list) for every block of fn outside nested definitions."""
+    stack = [fn]
+    while stack:
+        n = stack.pop()
+        for fld in ('body', 'orelse', 'finalbody'):
+            blk = getattr(n, fld, None)
+            if isinstance(blk, list) and blk and isinstance(blk[0], ast.stmt):
+                yield n, blk
+                for x in blk:
+                    if x is not skip and not isinstance(x, (ast.FunctionDef, ast.AsyncFunctionDef, ast.ClassDef)):
+                        stack.append(x)
+        for h in getattr(n, 'handlers', []) or []:
+            stack.append(h)
 
 
 def _jumps(body: list[ast.stmt]) -> bool:
@@ -400,6 +520,10 @@ def expand(prog: 'object') -> list[str]:
             new_body = _drop_self_returns(new_body, target)
         return pre, new_body
 
+    # closures of new helpers: `def inner(): return e` (no parameters, an expression body, only ever called) is e
+    for h in new.values():
+        if _expand_closures(h.node):
+            log.append(f'{h.short}: parameterless nested helper(s) replaced by their expression')
     counter = 0
     touched: dict[str, object] = {}
     for caller in list(funcs.values()):
